@@ -82,15 +82,20 @@ func WorkerMain(runCell func(string) string) {
 	}
 }
 
-// RunAll drives the cases through worker subprocesses (`<self> worker`), one case at a time each;
-// a worker that reported a hang or panic is killed and replaced.
-func RunAll(cases []string) []string {
-	out := make([]string, len(cases))
-	// scratch directory of the cells that run on the real file system; workers inherit A08_TMP
+// RunAllScratch is RunAll with a scratch directory for the cells that run on the real file system
+// (workers inherit A08_TMP); the directory is removed afterwards.
+func RunAllScratch(cases []string) []string {
 	if root, err := os.MkdirTemp("", "a08-"); err == nil {
 		os.Setenv("A08_TMP", root)
 		defer os.RemoveAll(root)
 	}
+	return RunAll(cases)
+}
+
+// RunAll drives the cases through worker subprocesses (`<self> worker`), one case at a time each;
+// a worker that reported a hang or panic is killed and replaced.
+func RunAll(cases []string) []string {
+	out := make([]string, len(cases))
 	nw := runtime.NumCPU()
 	if nw > 16 {
 		nw = 16
